@@ -297,3 +297,10 @@ pub proof fn lemma_str_no_ctrl(s: Seq<u8>, i: int)
         lemma_str_end_bounds(s, i + 1);
     }
 }
+
+// ---- what may follow a value inside a well-formed text: whitespace, then `,` `]` `}` or the end of input
+pub open spec fn is_tok(c: u8) -> bool { c == 0x5d || c == 0x7d || c == 0x2c }
+pub open spec fn follow_ok(s: Seq<u8>, e: int) -> bool {
+    let q = ws_end(s, e);
+    q >= s.len() || is_tok(s[q])
+}
